@@ -237,6 +237,9 @@ func (w *World) relevantItems(v *view, partitioned func(from, to int) bool, poli
 			if delays && w.delayedFor(it, v.nd.id) {
 				continue
 			}
+			if len(policy) > 0 && policy[0] && w.laggardHolds(it, v) {
+				continue
+			}
 			if w.relevant(v, it) {
 				out = append(out, it)
 			}
